@@ -120,3 +120,42 @@ def obligations(tier):
                              + (["permanent_failure_bounced"] if p["R"] + p["P"] >= 3 else [])
                              + (["two_reports_in_one_read"] if p["R"] + p["P"] >= 6 and p["STRICT"] else [])),
     ]
+
+
+# ---------------------------------------------------------------------------------------------------------------
+# h1: which message numbers a (re)started daemon looks at, and how numbers map to file names
+# (readsubdir.c, pqstart, fmtqfn.c, the name filter of todo_do).  Appended; the obligations above are unchanged.
+_obligations_base = obligations
+
+
+def h1_obligations(tier):
+    quick = tier == "quick"
+    obls = []
+    # kills: fmtqfn.c `++len` dropped (length for s==0 one short of what is written); `id % auto_split` -> `id / auto_split`;
+    #        `i = fmt_str(s,"/"); len += i` -> len not advanced; `if (s) *s++ = 0` dropped (no terminator);
+    #        fmt_ulong.c `while (q > 9)` -> `while (q > 10)` (announced length short for 10, 100, ..)
+    obls.append(Obl("fmtqfn_names", "fmtqfn.c",
+        progs=[Prog("fmt_ulong.c", cut=["fmt_ulong"], link=True)],      # ABS=0: harness passes straight through to the real one
+        repo=["fmtqfn.c", "fmt_str.c", "auto_split.c"],
+        grid=([{"ABS": 0, "SPLIT": 23, "DIG": 4, "DL": 5}, {"ABS": 0, "SPLIT": 1, "DIG": 4, "DL": 7}, {"ABS": 0, "SPLIT": 2, "DIG": 4, "DL": 0},
+               {"ABS": 0, "SPLIT": 23, "DIG": 5, "DL": 10}, {"ABS": 1, "SPLIT": 0, "DIG": 20, "DL": 7}, {"ABS": 1, "SPLIT": 23, "DIG": 20, "DL": 10}]
+              if quick else
+              [{"ABS": 0, "SPLIT": s, "DIG": d, "DL": l} for (s, d, l) in ((23, 4, 5), (1, 4, 7), (2, 4, 0), (3, 5, 6), (23, 5, 10), (23, 6, 5), (2, 7, 7), (23, 7, 5))]
+              + [{"ABS": 1, "SPLIT": s, "DIG": 20, "DL": l} for (s, l) in ((0, 7), (0, 0), (23, 10), (1, 5))]),
+        unwind=lambda p: {"fmt_ulong_real": p["DIG"] + 1, "fmt_ulong": 21, "fmt_str": p["DL"] + 2, "ref_number": min(p["DIG"] + 2, 22), "ref_ndigits": 21},
+        unwind_default=50, backend="cadical", timeout=600 if quick else 2400,
+        functions=["fmtqfn.c:fmtqfn", "fmt_ulong.c:fmt_ulong (ABS=0)", "fmt_str.c:fmt_str"],
+        cuts=["fmt_ulong -> ABS=0: the real one (renamed, called straight through); ABS=1: contract 'returns the digit count of u and writes that many bytes', "
+              "decided for the real fmt_ulong by the ABS=0 points up to DIG digits"],
+        assumes=["ABS=0: id < 10^DIG, auto_split = SPLIT; ABS=1: every 64-bit id, auto_split = SPLIT or (SPLIT=0) any value 1..10^7-1",
+                 "flagsplit in {0,1}; dirslash = DL symbolic non-NUL bytes, DL <= 10"],
+        outside=["the decimal digits themselves for ids of more than DIG digits (5 quick / 7 thorough); dirslash longer than 10 bytes; "
+                 "auto_split >= 10^8 (a 20-digit id then exceeds FMTQFN = 40 with a 10-byte dirslash: 10+9+1+20+1)"],
+        claim="C02/C03 (file naming): fmtqfn writes dirslash ++ [decimal(id mod split) ++ '/'] ++ decimal(id) ++ NUL in canonical decimal, "
+              "returns the number of bytes written, the same number for s == 0, never more than FMTQFN, and touches nothing beyond it",
+        expect_witnesses=lambda p: ["split_name", "split_name_wrapped", "flat_name"] + (["split_of_a_64_bit_number"] if p["ABS"] else [])))
+    return obls
+
+
+def obligations(tier):   # noqa: F811  (wraps the definition above)
+    return _obligations_base(tier) + h1_obligations(tier)
